@@ -32,8 +32,7 @@ package c03
 //
 // Where the path-insensitive reading and a cautious implementation may legitimately differ the
 // model answers "unsure" and the generator drops the construct: statements after a diverging
-// statement, and a `loop` without `break` whose body contains a throw or a diverging compound
-// expression outside of nested loops (see flowRes.ne; /repo counts those as loop exits).
+// statement.
 
 import (
 	"fmt"
@@ -144,7 +143,9 @@ func flowEval(s *fnode) flowRes {
 		return a
 	case fLoop:
 		a := flowEvalBlock(s.kids[0])
-		return flowRes{c: a.brk, unsure: a.unsure || (!a.brk && a.ne)}
+		// (until the fix of the analyzer a loop without break whose body held a never-typed expression
+		// was typed null; only a break of its own lets a loop complete)
+		return flowRes{c: a.brk, unsure: a.unsure}
 	case fWhile, fFor:
 		a := flowEvalBlock(s.kids[0])
 		return flowRes{c: true, unsure: a.unsure}
